@@ -13,9 +13,9 @@
     Restrict entries keyed by the number of levels (the state machine = the code
     since f8637cd) the second call is computed afresh and is the cofactor, the
     first call's entry stays in the cache under the old number of levels; with
-    the un-keyed lookups of DD/ZbddBool.v run directly on the kept cache (the
-    code before f8637cd) the second call is served the first one's entry, which
-    is not the cofactor.
+    the un-keyed lookups of the defective variant [zrestrict_unkeyed] (Mgr/HistoryZ.v:
+    the code before f8637cd) on the kept cache the second call is served the
+    first one's entry, which is not the cofactor.
     Everything here is computed by [vm_compute] on the executable model; the
     theorems of Mgr/HistoryZThms.v / HistoryZSpec.v are then applied to the
     computed states (their hypotheses are satisfiable, their conclusions are
@@ -212,19 +212,20 @@ Proof.
   split; [vm_compute; discriminate|]. split; [vm_compute; reflexivity|]. split; vm_compute; reflexivity.
 Qed.
 
-(** the same three calls with the un-keyed lookups of DD/ZbddBool.v on the kept
-    cache (the code before f8637cd): (first result, second result, operand, final table) *)
+(** the same three calls with the DEFECTIVE variant [zrestrict_unkeyed] (Mgr/HistoryZ.v:
+    [restrict] of the code before f8637cd, Restrict entries keyed by the operand edges
+    only) on the kept cache: (first result, second result, operand, final table) *)
 Definition exz_unkeyed : option (ref * ref * ref * snap) :=
   match zrunA (hinit_z zacache [] 2) [ZHVar 0 0 false; ZHVar 1 1 false] with
   | Some st =>
     let s := hz_s zacache st in
     match zslot zacache st 0, zslot zacache st 1 with
     | Some f, Some c =>
-      match zrestrict_edge zacache zac_get zac_add (S (nlevels s)) s [] f c with
+      match zrestrict_unkeyed zacache zac_get zac_add (S (nlevels s)) s [] f c 0 with
       | Some (s1, c1, r1) =>
         match zadd_vars s1 1 with
         | Some (s2, _) =>
-          match zrestrict_edge zacache zac_get zac_add (S (nlevels s2)) s2 c1 f c with
+          match zrestrict_unkeyed zacache zac_get zac_add (S (nlevels s2)) s2 c1 f c 0 with
           | Some (s3, _, r3) => Some (r1, r3, f, s3)
           | None => None
           end
